@@ -36,6 +36,7 @@ correcting Python's standard metaprogramming facilities.
 
 import sys
 import re
+import keyword
 import inspect
 import functools
 import itertools
@@ -876,7 +877,14 @@ class FunctionBuilder:
 
         body = _indent(self.body, ' ' * self.indent)
 
-        name = self.name.replace('<', '_').replace('>', '_')  # lambdas
+        # the def statement only needs a name that compiles and does not rebind
+        # anything in execdict (__name__ is restored below): lambdas, functions
+        # whose __name__ is no identifier ('get-item', 'test[1]', 'class')
+        name = re.sub(r'\W', '_', self.name)
+        if not name.isidentifier() or keyword.iskeyword(name):
+            name = '_' + name
+        while name in execdict:
+            name += '_'
         src = tmpl.format(name=name, sig_str=self.get_sig_str(with_annotations=False),
                           doc=self.doc, body=body)
         self._compile(src, execdict)
